@@ -95,6 +95,8 @@ class PduMachine(HistorySpec):
         elif k == "nak":
             ops["set_segment_requests"] = st.lists(st.tuples(u32(), u32()).map(list), max_size=5)
             ops["set_file_flag"] = st.integers(0, 1)
+            # the caller appends to the list the PDU holds and then calls a documented setter - another one: file_flag, with the value it has
+            ops["append_segment_in_place_then_set_same_file_flag"] = st.tuples(u32(), u32()).map(list)
         elif k == "filedata":
             ops["set_file_data"] = st.one_of(st.just(""), hexblob(40))
             ops["set_segment_metadata"] = st.one_of(st.none(), st.fixed_dictionaries({"state": st.integers(0, 3), "data": hexblob(20)}))
@@ -164,6 +166,10 @@ class PduMachine(HistorySpec):
         elif name == "set_segment_requests":
             o.segment_requests = [tuple(x) for x in a]
             m["segs"] = a
+        elif name == "append_segment_in_place_then_set_same_file_flag":
+            o.segment_requests.append(tuple(a))
+            o.file_flag = cd.LargeFileFlag(m["conf"]["large"])
+            m["segs"] = list(m["segs"]) + [a]
         elif name == "set_file_flag":
             o.file_flag = cd.LargeFileFlag(a)
             m["conf"]["large"] = a
